@@ -559,6 +559,18 @@ Section CacheOps.
     end.
 End CacheOps.
 
+(* guards of a cache history (tile coordinates are arbitrary integers: the slot is always in range) and the
+   invariant of a cache: distinct bundle keys, every bundle valid and at most b bytes long *)
+Definition ctile_ok (maxlen : Z) (t : (Z * Z * Z) * list Z) : Prop := bytes_okl (snd t) /\ zlen (snd t) < maxlen.
+Definition cop_ok (maxlen : Z) (op : cop) : Prop :=
+  match op with CStore tiles => Forall (ctile_ok maxlen) tiles | CRemove _ => True end.
+Definition ctiles_bytes (l : list ((Z * Z * Z) * list Z)) : Z := fold_right (fun t acc => 4 + zlen (snd t) + acc) 0 l.
+Definition cop_bytes (op : cop) : Z := match op with CStore tiles => ctiles_bytes tiles | CRemove _ => 0 end.
+Definition cops_bytes (ops : list cop) : Z := fold_right (fun op acc => cop_bytes op + acc) 0 ops.
+
+Definition cache_ok {St : Type} (Inv : St -> Prop) (dlen : St -> Z) (b : Z) (c : list (bkey * St)) : Prop :=
+  NoDup (map fst c) /\ forall k st, In (k, st) c -> Inv st /\ dlen st <= b.
+
 Definition v2c_run := c_run bfile v2_store1 v2_remove1 (fun _ => v2_init).
 Definition v2c_load := c_load bfile v2_load.
 Definition v2c_defrag := c_defrag bfile (fun _ => v2_defrag).
